@@ -132,7 +132,7 @@ pub fn c01() -> SimCheck {
         quick: 1200,
         thorough: 40_000,
         rule: "scenario = 3/5 real nodes on the simulated network with generated election windows, delays, unary-RPC loss, stream duplication, moving partitions (stall or break), leader isolation up to the noop deadline (same-term step-down), graceful stops, crashes (turned into graceful stops while the C02 hard-state finding is open, counted), restarts, light write load; oracle |Leaders(T)|<=1 for every term; non-trivial = >=2 terms had a leader and >=1 fault happened; distinct by (term->leader map, fault kinds)",
-        assumptions: vec!["crashes that would lose an unpersisted vote/term are excluded by construction while known finding C02 is open (counted in evidence)"],
+        assumptions: vec!["crashes are real: process crash (page cache survives) or power loss (only flushed log data survives; a hard state saved through MetaStore is durable on return, as its contract states)"],
         required: vec!["leader_change"],
         judge: |_sc, res, out| {
             let terms = count_leader_terms(res);
@@ -154,7 +154,7 @@ pub fn c31() -> SimCheck {
         quick: 1000,
         thorough: 30_000,
         rule: "same scenario family as C01; oracle over the leader-change watch values of every node: per node (and incarnation) reported terms never decrease, each term maps to <=1 leader id over all nodes, every reported (id,term) is in Leaders(term) (the node really sent AppendEntries / committed its noop in that term); non-trivial = >=2 leader changes observed by >=2 nodes; distinct by (term->leader map, fault kinds)",
-        assumptions: vec!["crashes that would lose an unpersisted vote/term are excluded by construction while known finding C02 is open"],
+        assumptions: vec!["crashes are real: process crash (page cache survives) or power loss (only flushed log data survives; a hard state saved through MetaStore is durable on return, as its contract states)"],
         required: vec!["leader_change"],
         judge: |_sc, res, out| {
             let mut observers = std::collections::BTreeSet::new();
@@ -198,7 +198,7 @@ pub fn c04() -> SimCheck {
         quick: 1000,
         thorough: 30_000,
         rule: "scenario = C01 family plus write load (puts/CAS/deletes/bursts), per-request entry caps 1..8 and batch sizes 1..16 with lagging followers, stream resets, restarts; oracle after every scenario step and every 50 ms of the quiet tail: for every pair of live nodes, below the highest index where both hold the same term, every index both hold has equal term and equal payload; non-trivial = >=2 terms had a leader that appended entries and >=1 node lagged or was cut off; distinct by (leader map, faults, final log shapes)",
-        assumptions: vec!["crashes that would lose an unpersisted vote/term are excluded by construction while known finding C02 is open"],
+        assumptions: vec!["crashes are real: process crash (page cache survives) or power loss (only flushed log data survives; a hard state saved through MetaStore is durable on return, as its contract states)"],
         required: vec!["writes_acked"],
         judge: |_sc, res, out| {
             let shapes: Vec<(u32, u64, u64)> = res.final_nodes.iter().map(|n| (n.id, n.first, n.last)).collect();
@@ -221,7 +221,7 @@ pub fn c05() -> SimCheck {
         quick: 1000,
         thorough: 30_000,
         rule: "scenario = C04 family with crash/restart of at most a minority at arbitrary instants, stream resets right after elections, small caps; committed-sequence oracle (entry N of the first leader whose commit index passes N): no two different entries are ever committed at one index, no live node ever holds a different entry at a committed index, a node that held committed entry i keeps holding it unless compacted, every acting leader holds all committed entries above its purge boundary; non-trivial = a leader change after >=1 commit with a crashed/stopped/cut-off node; distinct by (leader map, faults, committed length)",
-        assumptions: vec!["crashes that would lose an unpersisted vote/term are excluded by construction while known finding C02 is open"],
+        assumptions: vec!["crashes are real: process crash (page cache survives) or power loss (only flushed log data survives; a hard state saved through MetaStore is durable on return, as its contract states)"],
         required: vec!["writes_acked"],
         judge: |_sc, res, out| {
             let down = res.labels.iter().any(|l| ["crash", "stop", "partition", "isolate_leader"].contains(&l.as_str()));
@@ -250,7 +250,7 @@ pub fn c09() -> SimCheck {
         rule: "scenario = 3/5-voter clusters under write load with partitions that leave the leader with fewer than a majority of reachable voters, stream resets, out-of-order and late acknowledgements (delays, duplication), restarts; oracle evaluated at the instant each leader moves its commit index to N: the set of its current voters (itself included) whose log — live log, or the disk of a stopped node — holds the identical entry N must be a majority, and entry N must be from the leader's current term; non-trivial = a commit happened while >=1 voter was cut off, down or lagging (holders < voters); distinct by (leader map, faults, holder-set sizes)",
         assumptions: vec![
             "holders are counted when the commit notification is observed (same virtual instant; network delay >= 1 ms so a follower cannot have gained the entry in between)",
-            "crashes that would lose an unpersisted vote/term are excluded by construction while known finding C02 is open",
+            "crashes are real: process crash (page cache survives) or power loss (only flushed log data survives; a hard state saved through MetaStore is durable on return, as its contract states)",
         ],
         required: vec!["writes_acked"],
         judge: |_sc, res, out| {
@@ -288,7 +288,7 @@ pub fn c06() -> SimCheck {
         quick: 1000,
         thorough: 30_000,
         rule: "scenario = C05 family with put/delete/CAS/TTL-put streams, bursts and state-machine apply lag; oracle from the state-machine observer: per node (and incarnation) applied indexes are exactly last_applied+1, +2, … (no gap, no repeat), the command applied at index i is identical on every node and equals the committed entry i, and each node's final KV equals the reference model applied to the committed prefix 1..=last_applied; non-trivial = >=3 nodes applied >=10 entries across >=1 leader change; distinct by (leader map, faults, applied length)",
-        assumptions: vec!["crashes that would lose an unpersisted vote/term are excluded by construction while known finding C02 is open", "snapshots are disabled in this family (snapshot boundary semantics are owned by C16/C33)"],
+        assumptions: vec!["crashes are real: process crash (page cache survives) or power loss (only flushed log data survives; a hard state saved through MetaStore is durable on return, as its contract states)", "snapshots are disabled in this family (snapshot boundary semantics are owned by C16/C33)"],
         required: vec!["writes_acked"],
         judge: |_sc, res, out| {
             let mut per_node: std::collections::BTreeMap<u32, u64> = Default::default();
@@ -344,7 +344,7 @@ pub fn c10() -> SimCheck {
         quick: 900,
         thorough: 25_000,
         rule: "scenario = 1/3/5-node clusters, concurrent put/delete/CAS clients with unique values, faults as C05, graceful full-cluster restarts, ending with heal + restart of stopped nodes + a linearizable read of every key from the final leader; oracle: per-key Wing–Gong linearizability search over acknowledged writes (required), indeterminate writes (optional, may take effect any time after invoke), definite rejections (excluded) and linearizable reads incl. the final reads — an acknowledged write missing from a later linearizable read has no linearization; non-trivial = >=1 acknowledged write followed by a leader change or restart and a later successful read of that key; distinct by (leader map, faults, op outcomes)",
-        assumptions: vec!["crashes that would lose an unpersisted vote/term are excluded by construction while known finding C02 is open", "search budget exhaustion or >40 ops on one key = inconclusive for that key (label lin_skipped), never a violation"],
+        assumptions: vec!["crashes are real: process crash (page cache survives) or power loss (only flushed log data survives; a hard state saved through MetaStore is durable on return, as its contract states)", "search budget exhaustion or >40 ops on one key = inconclusive for that key (label lin_skipped), never a violation"],
         required: vec!["writes_acked"],
         judge: |_sc, res, out| {
             let acked = res.ops.iter().filter(|o| matches!(o.outcome, OpOutcome::WriteOk)).count();
@@ -376,7 +376,7 @@ pub fn c11() -> SimCheck {
         quick: 900,
         thorough: 25_000,
         rule: "scenario = C10 family biased to reads: leader isolated longer than the lease while its state machine lags, delayed acknowledgements, reads interleaved with writes at the old and the new leader, reads at non-leaders; oracle: the same per-key linearizability search where every successful read issued under the linearizable policy (explicit, or server default = linearizable) must fit; non-trivial = a successful linearizable read that overlapped or followed a partition/isolation/apply-lag fault; distinct by (leader map, faults, op outcomes)",
-        assumptions: vec!["crashes that would lose an unpersisted vote/term are excluded by construction while known finding C02 is open", "search budget exhaustion or >40 ops on one key = inconclusive for that key, never a violation"],
+        assumptions: vec!["crashes are real: process crash (page cache survives) or power loss (only flushed log data survives; a hard state saved through MetaStore is durable on return, as its contract states)", "search budget exhaustion or >40 ops on one key = inconclusive for that key, never a violation"],
         required: vec!["writes_acked"],
         judge: |_sc, res, out| {
             let reads = res.ops.iter().filter(|o| matches!(o.outcome, OpOutcome::ReadOk(_))).count();
@@ -521,10 +521,10 @@ pub fn c32() -> SimCheck {
         },
         quick: 800,
         thorough: 20_000,
-        rule: "scenario = any C05-style fault prefix (partitions, isolation, stream resets, crashes/stops of a minority, loss, duplication, apply lag), then faults stop: network healed, default link parameters, every stopped node restarted; oracle (bounded liveness in virtual time): within Q = 60 x election_timeout_max after the heal a probe write sent to whichever node reports itself leader is acknowledged, and within the same bound every live voter's applied index reaches the probe's index; non-trivial = heal after >=2 distinct fault kinds; distinct by (leader map, faults, recovery time bucket)",
+        rule: "scenario = any C05-style fault prefix (partitions, isolation, stream resets, crashes/stops of a minority, loss, duplication, apply lag), then faults stop: network healed, default link parameters, every stopped node restarted; oracle (bounded liveness in virtual time): within Q = 100 x election_timeout_max after the heal a probe write sent to whichever node reports itself leader is acknowledged, and within the same bound every live voter's applied index reaches the probe's index; non-trivial = heal after >=2 distinct fault kinds; distinct by (leader map, faults, recovery time bucket)",
         assumptions: vec![
             "election retry policy is scaled with the generated election window exactly as d-engine's defaults relate (vote round < election_timeout_min)",
-            "crashes that would lose an unpersisted vote/term are excluded by construction while known finding C02 is open",
+            "crashes are real: process crash (page cache survives) or power loss (only flushed log data survives; a hard state saved through MetaStore is durable on return, as its contract states)",
         ],
         required: vec![],
         judge: |_sc, res, out| {
@@ -538,7 +538,7 @@ pub fn c32() -> SimCheck {
             match res.recovery_write_ok_after_ms {
                 None => out.violate(
                     "C32:no-successful-write-within-bound-after-heal",
-                    format!("no probe write was acknowledged within {} ms (60 x election_timeout_max) after the faults stopped at t={}ms", res.recovery_bound_ms, res.heal_ms),
+                    format!("no probe write was acknowledged within {} ms (100 x election_timeout_max) after the faults stopped at t={}ms", res.recovery_bound_ms, res.heal_ms),
                 ),
                 Some(_) => {
                     if !res.recovery_unapplied.is_empty() {
@@ -752,7 +752,7 @@ pub fn c14() -> SimCheck {
         quick: 1000,
         thorough: 30_000,
         rule: "scenario = writes with globally unique values sent to every role (50% to non-leaders), empty commands, back-pressure limit 1..4 with bursts, leaders forced to step down (isolation, short noop deadline) with a non-empty propose buffer; oracle: a write answered with a definite rejection (failed_precondition 'Not leader', invalid_argument, resource_exhausted) never appears in any node's applied sequence; non-trivial = >=1 definite rejection at a node that was or later became leader, or a back-pressure rejection; distinct by (leader map, faults, rejection kinds)",
-        assumptions: vec!["crashes that would lose an unpersisted vote/term are excluded by construction while known finding C02 is open"],
+        assumptions: vec!["crashes are real: process crash (page cache survives) or power loss (only flushed log data survives; a hard state saved through MetaStore is durable on return, as its contract states)"],
         required: vec![],
         judge: |_sc, res, out| {
             let leaders: std::collections::BTreeSet<u32> = monitors::leaders_by_term(res).values().flatten().copied().collect();
